@@ -89,7 +89,7 @@ func genDelta(r *Rng, big bool) uint64 {
 
 var oldSelectors = []string{"cur", "zero", "sub", "sub+1", "cur+1", "cur-1", "abs", "max", "2^63"}
 var proofSelectors = []string{"honest", "empty", "honest_old", "trunk", "othersizes", "flip", "drop", "add", "addfront", "dup", "swap", "badlen", "random", "roots", "nil", "prepend_old_root", "append_new_root", "prepend_new_root", "append_old_root", "long", "honest_padded"}
-var sigMutations = []string{"wrongkey", "wrongkey_samename", "forgedhash", "nosig", "badsig", "flipbody", "trunc", "bytes", "otherorigin", "origin_prefix", "origin_case", "origin_ws", "trailing_nl", "crosslog", "unknownlog"}
+var sigMutations = []string{"wrongkey", "wrongkey_samename", "forgedhash", "nosig", "badsig", "flipbody", "trunc", "bytes", "otherorigin", "origin_prefix", "origin_bare", "origin_case", "origin_ws", "trailing_nl", "crosslog", "unknownlog"}
 var decorations = []string{"ext", "xsig_unknown", "xsig_unknown_first", "xsig_otherlog", "xsig_dup", "stale_wit", "fake_wit"}
 
 // genUpdate draws one update op for log l with nb branches.
